@@ -778,9 +778,9 @@ def gen_table(rng, spec, mods_now, lo=0, hi=5, small=False):
         table_mods.append("XX")
     if table_mods and rng.random() < 0.15:
         table_mods.remove(rng.choice(table_mods))
-    if rng.random() < 0.3:
+    if rng.random() < 0.6:      # columns of modalities the model does not (yet) know: needed to observe renames
         for m in MODS:
-            if m not in table_mods and rng.random() < 0.5:
+            if m not in table_mods and rng.random() < 0.7:
                 table_mods.append(m)
     cls = spec["cls"]
     sides = ("ipsi",) if cls in ("Unilateral", "HPVUnilateral") else ("ipsi", "contra")
@@ -883,7 +883,11 @@ def gen_op(rng, gs: GState, i, coq: bool):
     if r < 0.30:
         name = rng.choice(MODS if rng.random() < 0.6 or not gs.mods else list(gs.mods))      # equal NAME, new values
         op = {"op": "set_modality", "i": i, "name": name, "spec": sv(rng), "sens": sv(rng), "kind": rng.choice(["clinical", "pathological"])}
-        gs.mods[name] = True
+        known = [v for v in gs.mods.values() if isinstance(v, list)]
+        if known and name not in gs.mods and rng.random() < 0.5:
+            # a NEW name with the values of an existing modality (a later delete of the old one is a rename)
+            op["spec"], op["sens"], op["kind"] = rng.choice(known)
+        gs.mods[name] = [op["spec"], op["sens"], op["kind"]]
         return op
     if r < 0.38:
         name = rng.choice(list(gs.mods)) if gs.mods and rng.random() < 0.9 else rng.choice(MODS)
@@ -895,7 +899,15 @@ def gen_op(rng, gs: GState, i, coq: bool):
         return {"op": "del_modality", "i": i, "name": name}
     if r < 0.50:
         mods = [[n, sv(rng), sv(rng), rng.choice(["clinical", "pathological"])] for n in rng.sample(MODS, rng.randint(0, 2))]
-        gs.mods = {m[0]: True for m in mods}
+        known = [(k, v) for k, v in gs.mods.items() if isinstance(v, list)]
+        if known and rng.random() < 0.5:
+            # rename in place: the same values under other names (the cache key must depend on the names)
+            fresh = [n for n in MODS if n not in gs.mods]
+            rng.shuffle(fresh)
+            mods = [[(fresh.pop() if fresh and rng.random() < 0.7 else k), v[0], v[1], v[2]] for k, v in known]
+            if len({m[0] for m in mods}) < len(mods):
+                mods = mods[:1]
+        gs.mods = {m[0]: [m[1], m[2], m[3]] for m in mods}
         return {"op": "replace_modalities", "i": i, "mods": mods}
     if r < 0.53:
         gs.mods = {}
@@ -1025,9 +1037,9 @@ def gen_history(rng, classes, nops, coq):
         if rng.random() < 0.9 and specs[i]["cls"] != "HPVUnilateral":
             setup.append({"op": "set_params", "i": i, "kw": gen_param_kw(rng, gs, coq)})
         for name in rng.sample(MODS, rng.randint(0, 2)):
-            gs.mods[name] = True
-            setup.append({"op": "set_modality", "i": i, "name": name, "spec": sv(rng), "sens": sv(rng),
-                          "kind": rng.choice(["clinical", "pathological"])})
+            vals = [sv(rng), sv(rng), rng.choice(["clinical", "pathological"])]
+            gs.mods[name] = vals
+            setup.append({"op": "set_modality", "i": i, "name": name, "spec": vals[0], "sens": vals[1], "kind": vals[2]})
         for t in rng.sample(STAGES[:2], rng.randint(1, 2)):
             d = gen.gen_dist(rng, gs.mt)
             gs.dists[t] = d
